@@ -34,6 +34,9 @@ impl Ids {
             Some((-z - 1) as usize)
         } else if z < (1 << 20) {
             Some(match self.issued.get(z as usize) { Some(id) => *id, None => usize::MAX - (z as usize) })
+        } else if z < (1 << 21) {
+            // alias: the id of a created node plus 2^32 (never issued, equal to a live id modulo 2^32)
+            Some(match self.issued.get((z - (1 << 20)) as usize) { Some(id) => id.wrapping_add(1usize << 32), None => usize::MAX - (z as usize) })
         } else if z >= (1i128 << 40) && z < (1i128 << 64) {
             Some(z as usize)
         } else { None }
